@@ -185,6 +185,28 @@ pub fn run(cfg: &Config) -> i32 {
 				fail(&mut rep, "rendering", format!("set {:?}: disjunction {:?} conjunction {:?} display {:?}", mv, d, c, plain));
 			}
 			rep.evaluations += 3;
+			// a format specification may be ignored or applied to the rendering as a whole, never to each member
+			macro_rules! spec {
+				($fmt:literal) => {{
+					for (what, got, plain) in [
+						("as_disjunction", format!($fmt, s.as_disjunction()), render(&m, "or")),
+						("as_conjunction", format!($fmt, s.as_conjunction()), render(&m, "and")),
+						("Display", format!($fmt, s), want_plain.clone()),
+					] {
+						rep.evaluations += 1;
+						let whole = format!($fmt, plain.as_str());
+						if got != plain && got != whole {
+							fail(&mut rep, "rendering-with-format-spec", format!("set {:?}: {} under `{}` gives {:?}; expected {:?} (spec ignored) or {:?} (spec applied to the whole text)", mv, what, $fmt, got, plain, whole));
+						}
+					}
+				}};
+			}
+			spec!("{:9}");
+			spec!("{:.3}");
+			spec!("{:>12}");
+			spec!("{:^7.2}");
+			spec!("{:#}");
+			spec!("{:+}");
 			// set x set
 			for mask2 in 0..64usize {
 				rep.evaluations += 1;
